@@ -37,7 +37,16 @@ func Match(u *gen.Universe, a, b gen.Den) int {
 		return No
 	}
 	if len(pa) > 1 || len(pb) > 1 {
-		return Ambiguous
+		// an id listed at several positions: if none of its positions shares a family with the other id the answer is
+		// "no" whatever position is meant; otherwise "the same family" is not well defined
+		for _, x := range pa {
+			for _, y := range pb {
+				if x.Family == y.Family {
+					return Ambiguous
+				}
+			}
+		}
+		return No
 	}
 	if pa[0].Family != pb[0].Family {
 		return No
